@@ -1,5 +1,5 @@
 (** C16 — removing a document erases it completely and only it. *)
-From ID Require Import Model.StoreOps Model.Replica Proofs.StoreFacts Proofs.FsPutFacts Proofs.HashFacts Proofs.ReachFacts Proofs.ReachRebuild.
+From ID Require Import Model.StoreOps Model.Replica Proofs.StoreFacts Proofs.FsPutFacts Proofs.HashFacts Proofs.ReachFacts Proofs.ReachRebuild Proofs.SettingsFacts.
 
 (** For all 32-byte ids (ids ending in 0xFF and the all-0xFF id included: their upper bound is
     computed by the fixed-width successor, [Unb] when it overflows), removal deletes from every
@@ -63,6 +63,16 @@ Theorem C16_reachable_stores_are_well_formed : forall EH l, Forall wf_dop l ->
   wf_tables (drun EH l) /\ Forall wf_row (t_records (drun EH l)).
 Proof. exact reachable_well_formed. Qed.
 
+(** a document that does not exist -- never imported, or removed and not imported again -- shows no
+    settings, after every history of store operations (all 24 kinds, refused calls included) *)
+Theorem C16_absent_documents_show_no_settings : forall ks EH MF CAP ops s, SettingsInv (s_tables s) ->
+  let T := s_tables (fold_left (fun s o => fst (store_step ks EH MF CAP s o)) ops s) in
+  forall ns, get_cap T ns = None ->
+    get_policy T ns = default_policy /\ get_sync_peers T ns = None /\ peers_of T ns = [].
+Proof. exact absent_documents_show_no_settings. Qed.
+Example C16_empty_store_has_no_settings : SettingsInv empty_tables.
+Proof. exact SettingsInv_empty. Qed.
+
 Print Assumptions C16_remove_is_filter.
 Print Assumptions C16_remove_erases.
 Print Assumptions C16_remove_only.
@@ -71,3 +81,5 @@ Print Assumptions C16_recreate_empty.
 Print Assumptions C16_content_hashes_exact.
 Print Assumptions C16_content_hashes_step.
 Print Assumptions C16_reachable_stores_are_well_formed.
+Print Assumptions C16_absent_documents_show_no_settings.
+Print Assumptions C16_empty_store_has_no_settings.
